@@ -344,15 +344,27 @@ func (c *compiler) evalAccessIndex(left, index interface{}, node *ast.IndexExpre
 	rv := reflect.ValueOf(left)
 	switch rv.Kind() {
 	case reflect.Map:
-		mapKeyType := reflect.TypeOf(left).Key().Kind()
-		keyType := reflect.TypeOf(index).Kind()
-		if mapKeyType != reflect.Interface &&
-			keyType != mapKeyType {
-			err = fmt.Errorf("cannot use %v (%s constant) as %s value in map index", index, keyType.String(), mapKeyType.String())
-			return nil, err
+		kv := reflect.ValueOf(index)
+		if !kv.IsValid() {
+			return nil, fmt.Errorf("cannot use nil as %s value in map index", rv.Type().Key())
 		}
 
-		val := rv.MapIndex(reflect.ValueOf(index))
+		keyT := rv.Type().Key()
+		if !kv.Type().AssignableTo(keyT) {
+			// a key of the same kind (a string for a named string type, ...)
+			// is converted, as Go does for an untyped constant
+			if kv.Kind() != keyT.Kind() || !kv.Type().ConvertibleTo(keyT) {
+				err = fmt.Errorf("cannot use %v (%s constant) as %s value in map index", index, kv.Kind().String(), keyT.Kind().String())
+				return nil, err
+			}
+			kv = kv.Convert(keyT)
+		}
+
+		if !kv.Type().Comparable() {
+			return nil, fmt.Errorf("cannot use %v (%T) as map index: not comparable", index, index)
+		}
+
+		val := rv.MapIndex(kv)
 		if !val.IsValid() {
 			return nil, nil
 		}
